@@ -506,10 +506,6 @@ func main() {
 	}
 	b.WriteString("].\n")
 	writeIfChanged(filepath.Join(out, "Registry.v"), b.String())
-	if pj, err := json.MarshalIndent(provenance, "", " "); err == nil {
-		writeIfChanged(filepath.Join(out, "provenance.json"), string(pj)+"\n")
-	}
-
 	// ---- JsExports.v
 	b.Reset()
 	b.WriteString("(* GENERATED from /repo/otp-js/src/index.js and /repo/wasm/main.go by /verif/tools/gen_tables — do not edit. *)\n")
@@ -523,17 +519,43 @@ func main() {
 	for _, m := range re.FindAllStringSubmatch(string(js), -1) {
 		ex = append(ex, fmt.Sprintf("(%s, %s)", coqBytes(m[1]), coqBytes(m[2])))
 	}
+	provenance["js_exports"] = "source"
+	if len(ex) == 0 { // the entry module does not have the expected shape: what the loaded module shows (tools/wasm/runner.js)
+		provenance["js_exports"] = "none"
+		if l, ok := rt["js_exports"].([]any); ok && rt != nil {
+			for _, x := range l {
+				p := x.([]any)
+				ex = append(ex, fmt.Sprintf("(%s, %s)", coqBytes(p[0].(string)), coqBytes(p[1].(string))))
+			}
+			provenance["js_exports"] = "runtime"
+		}
+	}
 	fmt.Fprintf(&b, "(* exported name, global it is bound to *)\nDefinition js_exports : list (list N * list N) := [%s].\n", strings.Join(ex, ";\n  "))
 	wm, err := os.ReadFile(filepath.Join(repo, "wasm/main.go"))
 	if err != nil {
 		die("%v", err)
 	}
-	// js.Global().Set("name", js.FuncOf(fn)) or js.FuncOf(wrapper(fn)): the innermost identifier is the callback
-	re2 := regexp.MustCompile(`js\.Global\(\)\.Set\("([^"]+)",\s*js\.FuncOf\((?:[A-Za-z_][A-Za-z0-9_]*\()?([A-Za-z_][A-Za-z0-9_]*)\)?\)\)`)
+	// js.Global().Set("name", js.FuncOf(...)): the registered names.  Which Go function stands behind a name is not
+	// read off the text (wrappers and renames make that unreliable, and the property does not speak of Go identifiers):
+	// it is the correspondence that calls every global by name and compares the answers.
+	re2 := regexp.MustCompile(`js\.Global\(\)\.Set\("([^"]+)",\s*js\.FuncOf\(`)
 	var gl []string
 	for _, m := range re2.FindAllStringSubmatch(string(wm), -1) {
-		gl = append(gl, fmt.Sprintf("(%s, %s)", coqBytes(m[1]), coqBytes(m[2])))
+		gl = append(gl, fmt.Sprintf("(%s, %s)", coqBytes(m[1]), coqBytes(m[1])))
 	}
-	fmt.Fprintf(&b, "(* registered global name, Go function *)\nDefinition js_globals : list (list N * list N) := [%s].\n", strings.Join(gl, ";\n  "))
+	provenance["js_globals"] = "source"
+	if len(gl) == 0 {
+		provenance["js_globals"] = "none"
+		if l, ok := rt["js_globals"].([]any); ok && rt != nil {
+			for _, x := range l {
+				gl = append(gl, fmt.Sprintf("(%s, %s)", coqBytes(x.(string)), coqBytes(x.(string))))
+			}
+			provenance["js_globals"] = "runtime"
+		}
+	}
+	fmt.Fprintf(&b, "(* registered global name (twice: kept as pairs for the proofs that read them) *)\nDefinition js_globals : list (list N * list N) := [%s].\n", strings.Join(gl, ";\n  "))
 	writeIfChanged(filepath.Join(out, "JsExports.v"), b.String())
+	if pj, err := json.MarshalIndent(provenance, "", " "); err == nil {
+		writeIfChanged(filepath.Join(out, "provenance.json"), string(pj)+"\n")
+	}
 }
